@@ -4,7 +4,7 @@
    canonical term, the usability class of the codec on every reflected type. *)
 From Coq Require Import String List NArith ZArith Bool.
 From J5V.lib Require Import Outcome Corr.
-From J5V.model Require Import ReflectDesc ReflectSchema Reflect ReflectSpec.
+From J5V.model Require Import ReflectDesc ReflectSchema Reflect ReflectOwn ReflectSpec.
 Import ListNotations.
 Local Open Scope bool_scope.
 
@@ -134,13 +134,20 @@ Definition entry_matches (st : sset) (ke : ref * option root) : bool :=
   | _, _ => false
   end.
 
+(* The model the real code is compared with is the reader WITH the ownership of schema names
+   (ReflectOwn.v: the code since fix 0e6056c); the schema set is the first component of its state. *)
+Definition reflect_c (D : desc) (fs : list filed) : outcome sset := omap fst (o_reflect D fs).
+Definition cache_c (D : desc) (s : ost) (m : msgd) : ost * outcome root := o_cache_schema D (size D) s m.
+Definition fresh_c (D : desc) (m : msgd) : sset * outcome root :=
+  let '(s, o) := cache_c D ([], []) m in (fst s, o).
+
 Definition check_obs (D : desc) (o : c18obs) : bool :=
   match o with
   | OSet file class consistent set =>
       match find_file D file with
       | None => false
       | Some f =>
-          match reflect D [f] with
+          match reflect_c D [f] with
           | Ok st => N.eqb class 0 && Nat.eqb (length st) (length set) && forallb (entry_matches st) set
                      && Bool.eqb consistent (set_consistent D st)
           | other => N.eqb class (cls other)
@@ -150,7 +157,7 @@ Definition check_obs (D : desc) (o : c18obs) : bool :=
       match find_msg D full with
       | None => false
       | Some m =>
-          match cache_schema D (size D) [] m, r with
+          match fresh_c D m, r with
           | (st, Ok r1), Some r2 =>
               N.eqb class 0 && root_eqb r1 r2
               && Bool.eqb consistent (entry_consistent D st (msg_key m) (Linked r1))
@@ -162,7 +169,7 @@ Definition check_obs (D : desc) (o : c18obs) : bool :=
       match find_msg D full with
       | None => false
       | Some m =>
-          match cache_schema D (size D) [] m with
+          match fresh_c D m with
           | (st, Ok r) =>
               match client_props_of st r with
               | Ok ps => N.eqb class 0 && Bool.eqb dup (negb (names_unique_b ps))
@@ -177,26 +184,26 @@ Definition check_obs (D : desc) (o : c18obs) : bool :=
       match find_msg D full with
       | None => false
       | Some m =>
-          match cache_schema D (size D) [] m with
+          match fresh_c D m with
           | (st, Ok r) => let '(e, f) := obs_codec_classes D st m r in N.eqb ce e && N.eqb cf f
           | _ => false
           end
       end
   | OHist l =>
-      (fix go (st : sset) (l : list (str * N * bool)) : bool :=
+      (fix go (st : ost) (l : list (str * N * bool)) : bool :=
          match l with
          | [] => true
          | (full, class, same) :: rest =>
              match find_msg D full with
              | None => false
-             | Some m => let '(st1, o) := cache_schema D (size D) st m in
+             | Some m => let '(st1, o) := cache_c D st m in
                          (* a Go panic unwinds through Schema without the roll-back: what the cache holds
                             afterwards is not modelled, the comparison stops there *)
                          N.eqb class (cls o) &&
                          (* cache transparency of values, observed: the answer of the shared cache against
                             the answer of a fresh one (true when either does not answer) *)
                          (match o with
-                          | Ok r => match snd (cache_schema D (size D) [] m) with
+                          | Ok r => match snd (fresh_c D m) with
                                     | Ok r' => Bool.eqb same (root_eqb r r')
                                     | _ => same
                                     end
@@ -204,7 +211,7 @@ Definition check_obs (D : desc) (o : c18obs) : bool :=
                           end) &&
                          (if N.eqb (cls o) 2 then true else go st1 rest)
              end
-         end) [] l
+         end) ([], []) l
   end.
 
 Definition c18_check (c : c18case) : bool :=
@@ -216,7 +223,7 @@ Definition obs_model (D : desc) (o : c18obs) : list N :=
   | OSet file _ _ _ =>
       match find_file D file with
       | None => [99%N]
-      | Some f => match reflect D [f] with
+      | Some f => match reflect_c D [f] with
                   | Ok st => [0%N; N.of_nat (length st); if set_consistent D st then 1%N else 0%N]
                   | other => [cls other]
                   end
@@ -224,7 +231,7 @@ Definition obs_model (D : desc) (o : c18obs) : list N :=
   | OMsg full _ _ _ =>
       match find_msg D full with
       | None => [99%N]
-      | Some m => match cache_schema D (size D) [] m with
+      | Some m => match fresh_c D m with
                   | (st, Ok r1) => [0%N; if entry_consistent D st (msg_key m) (Linked r1) then 1%N else 0%N]
                   | (_, other) => [cls other]
                   end
@@ -232,7 +239,7 @@ Definition obs_model (D : desc) (o : c18obs) : list N :=
   | OClient full _ _ _ paths =>
       match find_msg D full with
       | None => [99%N]
-      | Some m => match cache_schema D (size D) [] m with
+      | Some m => match fresh_c D m with
                   | (st, Ok r) => match client_props_of st r with
                                   | Ok ps => [0%N; if names_unique_b ps then 0%N else 1%N; if props_resolve D st m ps then 0%N else 1%N;
                                               if client_paths_dec (map (fun p => (p_json p, p_path p)) ps) paths then 0%N else 1%N]
@@ -244,21 +251,21 @@ Definition obs_model (D : desc) (o : c18obs) : list N :=
   | OCodec full _ _ =>
       match find_msg D full with
       | None => [99%N]
-      | Some m => match cache_schema D (size D) [] m with
+      | Some m => match fresh_c D m with
                   | (st, Ok r) => let '(e, f) := obs_codec_classes D st m r in [e; f]
                   | _ => [98%N]
                   end
       end
   | OHist l =>
-      (fix go (st : sset) (l : list (str * N * bool)) : list N :=
+      (fix go (st : ost) (l : list (str * N * bool)) : list N :=
          match l with
          | [] => []
          | (full, _, _) :: rest =>
              match find_msg D full with
              | None => [99%N]
-             | Some m => let '(st1, o) := cache_schema D (size D) st m in cls o :: go st1 rest
+             | Some m => let '(st1, o) := cache_c D st m in cls o :: go st1 rest
              end
-         end) [] l
+         end) ([], []) l
   end.
 Definition c18_model (c : c18case) : list (list N) :=
   match c with C18Case D obs => map (obs_model D) obs end.
